@@ -225,8 +225,9 @@ def summarize(prop, tier, seed, meta, results, wall, quiet=False, census=True):
                     violations.append((oname, rep, ''))
     # census
     if baseline is not None and census:
-        # engine-generated side conditions (divisors-nonzero) come and go with how a term happens to be written: not part of the census
-        missing = [n for n in baseline.get('discharged', []) + baseline.get('bounded', []) if n not in all_names and not n.endswith('/divisors-nonzero')]
+        # engine-generated obligations (divisors-nonzero; no-unexpected-exception, which exists only where some path raises) come and go
+        # with how a term is written / which paths are feasible: not part of the census
+        missing = [n for n in baseline.get('discharged', []) + baseline.get('bounded', []) if n not in all_names and not n.endswith(('/divisors-nonzero', '/no-unexpected-exception'))]
         if missing and not undecided and not broken:
             undecided.append("census: %d obligations of the committed baseline were not generated: %s"
                              % (len(missing), missing[:5]))
@@ -344,7 +345,7 @@ def main(argv=None):
         dis, bnd = [], []
         for r in results:
             for o in r['obligations'].values():
-                if o['kind'] == 'canary' or o['status'] != 'discharged' or o['name'].endswith('/divisors-nonzero'):
+                if o['kind'] == 'canary' or o['status'] != 'discharged' or o['name'].endswith(('/divisors-nonzero', '/no-unexpected-exception')):
                     continue
                 (bnd if (r.get('bounded') or o.get('native')) else dis).append(o['name'])
         base[a.prop] = {'discharged': sorted(dis), 'bounded': sorted(bnd)}
